@@ -227,3 +227,10 @@ H_LEMMA2(slot, AL_LEM_SLOT(x, y, z), x < y && y <= AL_LEN_MAX && y * ISZ <= z)
 H_LEMMA2(ord, AL_LEM_ORD(x, y), x < y && y <= AL_LEN_MAX)
 H_LEMMA2(popn, AL_LEM_POPN(x, y), x < y && y <= AL_LEN_MAX)
 H_LEMMA2(next, AL_LEM_NEXT(x), x < AL_LEN_MAX)
+
+/* the two forms of "the elements fit the storage" used by the contracts are equivalent, for every length and size */
+void h_inv_forms(void) {
+    size_t len = nondet_size_t(), cur = nondet_size_t();
+    __CPROVER_assert(AL_FITS_P(len, cur) == AL_FITS_Q(len, cur), "product form <=> quotient form");
+    if (AL_FITS_P(len, cur)) CANARY("fits"); else CANARY("does not fit");
+}
